@@ -10,7 +10,7 @@
 typedef struct { const char *name; cred_defects df; int depth; int only_tlcp_server; int only_client; } defect_t;
 static defect_t DEF[] = {
 	{ "honest-depth1", {0}, 1 }, { "honest-depth2", {0}, 2 }, { "honest-depth3", {0}, 3 },
-	{ "untrusted-root", { .untrusted_root = 1 }, 1 }, { "untrusted-root-depth2", { .untrusted_root = 1 }, 2 }, { "impostor-certificate-shaped-like-the-trust-anchor", { .untrusted_root = 1, .lookalike = 1 }, 1 }, { "expired", { .expired = 1 }, 1 }, { "not-yet-valid", { .notyet = 1 }, 1 }, { "expired-depth2", { .expired = 1 }, 2 },
+	{ "untrusted-root", { .untrusted_root = 1 }, 1 }, { "untrusted-root-depth2", { .untrusted_root = 1 }, 2 }, { "impostor-certificate-shaped-like-the-trust-anchor", { .untrusted_root = 1, .lookalike = 1 }, 1 }, { "expired", { .expired = 1 }, 1 }, { "not-yet-valid", { .notyet = 1 }, 1 }, { "not-yet-valid-by-2^32-seconds", { .notyet32 = 1 }, 1 }, { "not-yet-valid-by-2^32-seconds-depth2", { .notyet32 = 1 }, 2 }, { "expired-depth2", { .expired = 1 }, 2 },
 	{ "issuer-without-basicConstraints", { .issuer_no_bc = 1 }, 2 }, { "issuer-without-basicConstraints-depth3", { .issuer_no_bc = 1 }, 3 }, { "second-level-issuer-without-basicConstraints", { .issuer2_no_bc = 1 }, 3 }, { "second-level-issuer-cA-FALSE", { .issuer2_ca_false = 1 }, 3 }, { "issuer-cA-FALSE", { .issuer_ca_false = 1 }, 2 }, { "issuer-cA-FALSE-depth3", { .issuer_ca_false = 1 }, 3 },
 	{ "certificate-signature-bitflip", { .sigflip = 1 }, 1 }, { "certificate-signature-bitflip-depth2", { .sigflip = 1 }, 2 }, { "sign-key-does-not-match-certificate", { .wrong_signkey = 1 }, 1 }, { "sign-key-does-not-match-certificate-depth2", { .wrong_signkey = 1 }, 2 },
 	{ "enc-key-does-not-match-enc-certificate", { .wrong_enckey = 1 }, 1, 1 }, { "enc-certificate-forged", { .enc_forged = 1 }, 1, 1 }, { "enc-certificate-forged-depth2", { .enc_forged = 1 }, 2, 1 }, { "enc-certificate-forged-depth3", { .enc_forged = 1 }, 3, 1 }, { "enc-certificate-expired", { .enc_expired = 1 }, 1, 1 }, { "enc-certificate-expired-depth2", { .enc_expired = 1 }, 2, 1 }, { "chain-in-wrong-order", { .wrong_order = 1 }, 2 }, { "chain-in-wrong-order-depth3", { .wrong_order = 1 }, 3 }, { "forged-issuing-CA-depth2", { .issuer_forged = 1 }, 2 }, { "forged-issuing-CA-depth3", { .issuer_forged = 1 }, 3 }, { "forged-issuing-CA-under-a-CA-without-pathLen", { .issuer_forged = 1, .issuer2_no_pathlen = 1 }, 3 }, { "honest-upper-CA-without-pathLen", { .issuer2_no_pathlen = 1 }, 3 }, { "empty-chain", { .empty_chain = 1 }, 1, 0, 1 },
